@@ -357,7 +357,13 @@ func checkC14(c *Ctx, r *Report) {
 			return false, ""
 		},
 		// buf.Bytes()[2:] in whichever function assembles the data frame: decided, not excepted
-		sliceOK: bufferSliceOK,
+		// ... or x[2:] of a slice value built by append (ip_j6.go)
+		sliceOK: func(sl *ssa.Slice) (bool, string) {
+			if ok, why := bufferSliceOK(sl); ok {
+				return ok, why
+			}
+			return j6AppendSliceOK(sl)
+		},
 		exceptions: map[string]string{
 			"transport/ardop.newBroadcaster$1|index receivers[i]":                                   "loop index discipline: i < len(receivers) is tested at the top of every iteration and i-- only follows the removal of element i",
 			"transport/ardop.newBroadcaster$1|slice receivers[:i]":                                  "same loop: 0 <= i < len(receivers) holds where a receiver is removed",
@@ -375,6 +381,8 @@ func checkC14(c *Ctx, r *Report) {
 		skipFns: map[string]string{
 			"transport/ardop.OpenTCP": "entry point taking a locally configured address, not TNC input",
 		},
+		// the same exception as runControlLoop$2|panic(err), recognised by what is thrown (ip_j6.go)
+		fatalOK: c.j6WriteFailure,
 	})
 	r.Infos["crash_inventory"] = st
 
@@ -436,70 +444,24 @@ func checkC14(c *Ctx, r *Report) {
 		r.Fail("C14-fullread", "anchor ardop.readFrameOfType not found")
 	} else {
 		where := fnName(fn)
-		var crcRead, dataRead ssa.CallInstruction
-		for _, ci := range callsTo(fn, false, "io.ReadFull") {
-			buf := ci.Common().Args[1]
-			if mk, ok := origin(buf).(*ssa.MakeSlice); ok {
-				if k, isC := constInt(mk.Len); isC && k == 2 {
-					crcRead = ci
-					continue
-				}
-			}
-			if sl, ok := buf.(*ssa.Slice); ok {
-				if al, ok := sl.X.(*ssa.Alloc); ok {
-					if arr, ok := al.Type().Underlying().(*types.Pointer).Elem().Underlying().(*types.Array); ok && arr.Len() == 2 {
-						crcRead = ci
-						continue
-					}
-				}
-			}
-			dataRead = ci
-		}
+		// the steps of the reader are looked for in readFrameOfType and in the functions it calls
+		// synchronously; a fact about an error counts only when the error is handed back up to the
+		// caller of readFrameOfType at every call site of the helper (ip_j6.go)
+		rf := c.j6Reader(pkg, fn)
 		o := r.Add("C14-fullread", where, "CRC bytes read completely and the error tested", c.pos(fn.Pos()))
 		switch {
-		case crcRead == nil:
+		case rf.crcRead == nil:
 			o.Bad("the two CRC bytes are not read with io.ReadFull")
+		case rf.crcTested && rf.crcCmpOK:
+			o.OK("io.ReadFull into the 2-byte buffer; its error returns; the CRC comparison runs on the nil edge")
 		default:
-			ev := errResult(crcRead.Value())
-			tested := false
-			if ev != nil {
-				for _, ret := range returnsOf(fn) {
-					if resOf(ret, 1) == ev {
-						tested = true
-					}
-				}
-			}
-			// and the comparison with the computed CRC is on the nil edge
-			cmpOK := false
-			for _, ci := range callsTo(fn, false, pkg+".crc16Sum") {
-				if okEdgeDominates(crcRead.Value(), ci.Block()) {
-					cmpOK = true
-				}
-			}
-			if tested && cmpOK {
-				o.OK("io.ReadFull into the 2-byte buffer; its error returns; the CRC comparison runs on the nil edge")
-			} else {
-				o.Bad("the error of reading the CRC bytes is not tested before the CRC is compared")
-			}
+			o.Bad("the error of reading the CRC bytes is not tested before the CRC is compared")
 		}
-		r.Check("C14-fullread", where, "data frame body read completely", c.pos(fn.Pos()), dataRead != nil,
+		r.Check("C14-fullread", where, "data frame body read completely", c.pos(fn.Pos()), rf.dataRead != nil && rf.dataReadOK,
 			"io.ReadFull into the frame buffer", "the body of a data frame is not read with io.ReadFull")
 		// checksum mismatch refuses the frame
 		o = r.Add("C14-fullread", where, "CRC mismatch refuses the frame", c.pos(fn.Pos()))
-		refused := false
-		for _, ret := range returnsOf(fn) {
-			if ld, ok := resOf(ret, 1).(*ssa.UnOp); ok && strings.HasSuffix(pathOf(ld), "ErrChecksumMismatch") {
-				for _, cd := range condsAt(ret.Block()) {
-					if bo, ok := cd.V.(*ssa.BinOp); ok && bo.Op == token.NEQ && cd.Truth && cd.If.Block().Succs[0] == ret.Block() && dependsOn(cd.V, func(v ssa.Value) bool {
-						call, ok := v.(*ssa.Call)
-						return ok && strings.HasSuffix(callName(&call.Call), ".crc16Sum")
-					}) {
-						refused = true
-					}
-				}
-			}
-		}
-		if refused {
+		if rf.refused {
 			o.OK("ErrChecksumMismatch is returned on the 'computed != received' edge")
 		} else {
 			o.Bad("a frame whose CRC does not match is no longer refused")
@@ -541,6 +503,14 @@ func checkC14(c *Ctx, r *Report) {
 		if fa.call != nil {
 			asmName = fa.fn.Name() + " (whose result Write sends)"
 		}
+		// ... or it is a []byte VALUE built with make/append/AppendUint16: then the conditions are stated
+		// on the symbolic content of the value sent, per host interface (ip_j6.go)
+		var df *j6DataFrame
+		if fa.fn == nil && fa.send != nil {
+			d := c.j6ResolveFrame(pkg, fn, fa.send.X, fa.send)
+			df = &d
+			asmName = "the slice value Write sends"
+		}
 		// 16-bit length of the (truncated) data
 		o := r.Add("C14-framing", where, "16-bit length field = len(data written)", c.pos(fn.Pos()))
 		lenOK, truncOK := false, false
@@ -568,7 +538,10 @@ func checkC14(c *Ctx, r *Report) {
 			}
 		}
 		pr := newProver(c)
-		if written != nil {
+		if df != nil && df.payload != nil {
+			written, lenOK = df.payload, df.lenOK
+			truncOK = df.payloadAt != nil && pr.LE(written, true, 0, nil, false, 65535, df.payloadAt)
+		} else if written != nil {
 			// inside a helper the bound follows from the caller facts of the prover: the relation is
 			// proven for the actual argument at every call site
 			for _, ci := range payloadWrites {
@@ -599,10 +572,17 @@ func checkC14(c *Ctx, r *Report) {
 				}
 			}
 		}
+		if df != nil {
+			prefix, crc = df.prefixOK, df.crcOK
+		}
 		if prefix && crc {
 			o.OK("on the serial (non-TCP) edge the frame starts with \"D:\" and ends with crc16Sum of everything after the two prefix bytes (assembled in %s)", asmName)
 		} else {
-			o.Bad("serial data frames are not framed as D: + length + data + CRC over length and data (prefix: %v, crc: %v)", prefix, crc)
+			detail := ""
+			if df != nil {
+				detail = fmt.Sprintf("; serial: %s; TCP: %s", j6Show(c, df.serial), j6Show(c, df.tcp))
+			}
+			o.Bad("serial data frames are not framed as D: + length + data + CRC over length and data (prefix: %v, crc: %v%s)", prefix, crc, detail)
 		}
 		// returns the count accepted
 		o = r.Add("C14-framing", where, "Write reports the number of bytes accepted", c.pos(fn.Pos()))
@@ -698,7 +678,16 @@ func checkC14(c *Ctx, r *Report) {
 				}
 			}
 		}
+		if df != nil && df.why == "" {
+			bad = c.j6ChainMisuse(df, fa.send, naturalLoops(fn))
+		}
 		switch {
+		case df != nil && df.why == "" && bad == "":
+			o.OK("the frame is a slice value completed before the loop that sends (and re-sends) it, and nothing else uses the values it is built from")
+		case df != nil && df.why == "":
+			o.Bad("the frame buffer is modified inside the loop that retransmits it, or its bytes can change after they were put in (%s): after a CRCFAULT the frame goes out with other bytes and the host stream loses framing", bad)
+		case df != nil:
+			o.Bad("the frame sent is not the content of a buffer assembled in this function or in a helper it calls (unresolved: %s)", df.why)
 		case fa.fn == nil:
 			o.Bad("the frame sent is not the content of a buffer assembled in this function or in a helper it calls (unresolved: %s)", fa.why)
 		case bad != "":
@@ -728,12 +717,7 @@ func checkC14(c *Ctx, r *Report) {
 		})
 		r.Check("C14-framing", fnName(fn), "reader dispatches c and d frames", c.pos(fn.Pos()), arms['c'] && arms['d'] && arms['*'],
 			"arms for '*' (serial wrapper), 'c' and 'd'", "the frame reader no longer has arms for '*', 'c' and 'd'")
-		peek2 := false
-		for _, ci := range callsTo(fn, false, "bufio.Reader.Peek") {
-			if k, isC := constInt(ci.Common().Args[1]); isC && k == 2 {
-				peek2 = true
-			}
-		}
+		peek2 := c.j6Reader(pkg, fn).peek2 // in the reader or a function it calls synchronously
 		r.Check("C14-framing", fnName(fn), "16-bit length on the reading side", c.pos(fn.Pos()), peek2, "the length is decoded from two peeked bytes", "the data frame length is no longer decoded from two bytes")
 	}
 
@@ -896,10 +880,13 @@ func checkC14(c *Ctx, r *Report) {
 	}
 	// The dispatch goroutine: the closures of runControlLoop and every function of the package they
 	// run synchronously (plain static calls) - the arms of the loop may live in helper methods.
-	var dispatchTree []*ssa.Function
-	inDispatch := func(fn *ssa.Function) bool { return strings.Contains(fnName(fn), "runControlLoop$") }
+	// "The goroutines runControlLoop starts" are the targets of its go statements - function literals
+	// or functions/methods of the package that are started there and called nowhere else (ip_j6.go).
+	var dispatchTree, goRoots []*ssa.Function
+	inDispatch := func(fn *ssa.Function) bool { return j6Within(fn, goRoots) }
 	if fn := c.Func(pkg, "(*TNC).runControlLoop"); fn != nil {
-		dispatchTree = c.syncTree(withClosures(fn), pkg)
+		goRoots = c.j6GoRoots(fn)
+		dispatchTree = c.syncTree(append([]*ssa.Function{fn}, goRoots...), pkg)
 	}
 	if fn := c.Func(pkg, "(*TNC).runControlLoop"); fn != nil {
 		// BUFFER messages reach updateBuffer with the parsed count: the call lies in the dispatch
